@@ -37,6 +37,9 @@ pub assume_specification<T: PartialEq, A: core::alloc::Allocator>[ Vec::<T, A>::
 pub assume_specification<T: Copy>[ Option::<&T>::copied ](o: Option<&T>) -> (r: Option<T>)
     ensures r == (match o { Some(x) => Some(*x), None => None });
 
+pub assume_specification[ isize::unsigned_abs ](x: isize) -> (r: usize)
+    ensures r as int == (if x >= 0 { x as int } else { -(x as int) });
+
 /// R3h: verified stand-ins for `slice.iter().any(f)` and `slice.contains(x)` (same evaluation order and short-circuiting as
 /// the std functions; the specification speaks about the closure's own contract)
 pub fn vx_any<T, F: Fn(&T) -> bool>(s: &[T], f: F) -> (r: bool)
